@@ -128,3 +128,14 @@ chk("C12",
     "Mostly structural observation per path (term identity); the solver role is marginal here and the claim is bounded by the C02 "
     "configuration set. Object arrays stand for float arrays; dtype-dependent copies (astype to another dtype) are outside.",
     "symbolic execution with per-element distinct terms; term-identity snapshots and in-place write probes on every path", "DESIGN §3 C12")
+chk("C03",
+    "Value/shape lane (solver): ~330 call templates - every differentiable function with a NumPy namesake, Tensor methods, operators "
+    "(incl. reflected and builtin abs), NumPy functions/ufuncs applied to tensors - over operands of shape (2,3), (3,), 0-d, empty (0,3) "
+    "and non-contiguous, with axis/keepdims/ddof/where/out options: the same source is evaluated with F = mygrad on Tensors (tracking "
+    "on and inside no_autodiff) and F = numpy on the SAME symbolic object arrays; shapes must agree and z3 decides for all real inputs "
+    "that every element agrees. Dtype lane (no solver): operand kinds {Python bool/int/float, 0-d array, array, Tensor} x dtypes {bool, "
+    "int8, int64, float16, float32, float64} x unary/binary/sequential/manipulation/linalg functions and operators, result dtype and "
+    "shape equal NumPy's on concrete arrays, tracked and untracked.",
+    "Value lane trusts NumPy's object loops as the model of its float loops (real arithmetic). Dtype lane relies on NEP 50 (dtypes do "
+    "not depend on values). Known finding: the x**1 / x**2 shortcut on int/bool tensors with float/bool exponents.",
+    "symbolic execution differential against NumPy on shared symbolic arrays + SMT equality; enumeration for dtype facts", "DESIGN §3 C03")
